@@ -187,7 +187,7 @@ def registry(ctx, tk):
     import_np = {"sum", "prod", "all", "any", "max", "min", "mean", "std", "argmax", "argmin", "cumsum", "nonzero", "cumprod", "amax", "amin"}
     for _, nm in names:
         m = ra.lookup(nm)
-        ctx.decide("C05.b", "arrayfunctions.get_ra_func", what, True if (m is not None and nm in import_np) else False,
+        ctx.decide("C05.b", "arrayfunctions.get_ra_func", what, True if (m is not None and nm in import_np) else (False if m is None else None),
                    "`%s` is registered but RaggedArray has no such method" % nm if m is None else "np.%s is not a numpy function" % nm,
                    key="registered:" + nm, engine="E6")
     # REDUCTIONS maps each ufunc to the method numpy defines through it
